@@ -363,7 +363,18 @@ func newLoadTasksModel(c *Ctx) *loadTasksModel {
 		if site != nil {
 			for _, r := range returnsOf(calls[0].Parent()) {
 				vals := returnValues(r)
-				if len(vals) != 2 || vals[0] != extractOf(calls[0], 0) || vals[1] != extractOf(calls[0], 1) {
+				if len(vals) != 2 {
+					passThrough = false
+					continue
+				}
+				if definitelyNonNilError(vals[1], nil) {
+					continue // an error return: the task result is not used
+				}
+				// a success return hands out NewTask's task, with NewTask's error (or nil after testing it)
+				if vals[0] != extractOf(calls[0], 0) {
+					passThrough = false
+				}
+				if !isNilConst(vals[1]) && vals[1] != extractOf(calls[0], 1) {
 					passThrough = false
 				}
 			}
